@@ -9,9 +9,10 @@ import G9.Driver.SrvSeq
 import G9.Driver.Frame
 import G9.Driver.Ufs
 import G9.Driver.Clnt
+import G9.Driver.Life
 open G9 G9.Driver
 
-def handlers : List (String → List String → Option String) := [wire, logger, srvseq, frames, ufs, clnt]
+def handlers : List (String → List String → Option String) := [wire, logger, srvseq, frames, ufs, clnt, life]
 
 def answer (line : String) : String :=
   match (line.trimAscii.toString.splitOn " ").filter (· ≠ "") with
